@@ -11,6 +11,13 @@ CLAIMED = {
             "induction over the length lifts it to all inputs; whole-function checks cover all strings up to a stated length.",
             "Trusted: CrossHair 0.0.110 + z3, the AST loop-state rewrite (vlib.loopstate), the written induction argument.",
             "DESIGN.md §1 C03"),
+    "C04": ("CrossHair/z3 symbolic execution of the real InjectionTracker methods from a symbolic pre-state "
+            "(window of <=4/6 symbolic ids, symbolic base counters, unbounded ints) under a proved representation invariant",
+            "Bounded symbolic model checking with inductive pre-state: each obligation is decided on all paths for all integer "
+            "values; RI preservation makes the pre-state stand for every history with a window of at most the stated size.",
+            "Trusted: CrossHair + z3; the representation invariant is checked to be inductive by two of the obligations; "
+            "logging statements are compiled out (vlib.nolog).",
+            "DESIGN.md §1 C04"),
 }
 
 NOT_APPLICABLE = {
